@@ -52,7 +52,8 @@ pub fn bin_sequences(wsize: usize, msize: usize, in_path: &str, out_path: &str, 
                     );
                     if let Some(record) = record {
                         let mgen = if wsize == 0 {
-                            MinimiserGenerator::new(&record.seq, record.seq.len(), msize)
+                            // one window spanning the record; never narrower than a minimiser
+                            MinimiserGenerator::new(&record.seq, record.seq.len().max(msize), msize)
                         } else {
                             MinimiserGenerator::new(&record.seq, wsize, msize)
                         };
@@ -139,7 +140,8 @@ pub fn seq_to_min(wsize: usize, msize: usize, in_path: &str, out_path: &str, thr
                     );
                     if let Some(record) = record {
                         let mgen = if wsize == 0 {
-                            MinimiserGenerator::new(&record.seq, record.seq.len(), msize)
+                            // one window spanning the record; never narrower than a minimiser
+                            MinimiserGenerator::new(&record.seq, record.seq.len().max(msize), msize)
                         } else {
                             MinimiserGenerator::new(&record.seq, wsize, msize)
                         };
